@@ -492,6 +492,18 @@ struct FnEmitter {
           const char* fn = callee->getIntrinsicID() == Intrinsic::ctlz ? "ll2c_ctlz" : callee->getIntrinsicID() == Intrinsic::cttz ? "ll2c_cttz" : "ll2c_ctpop";
           out << "  " << lhs << "(" << ctype(ci.getType()) << ")" << fn << "((uint64_t)" << arg(0) << "," << b << ");\n"; return;
         }
+        case Intrinsic::fshl: case Intrinsic::fshr: {
+          // funnel shift: fshl(a,b,s) = (a:b << (s mod w)) high word ; fshr(a,b,s) = (a:b >> (s mod w)) low word
+          unsigned b = ibits(ci.getType());
+          if (b > 64) die("fsh >64");
+          std::string ct = ctype(ci.getType());
+          std::string sh = "((uint64_t)" + arg(2) + " % " + std::to_string(b) + ")";
+          bool left = callee->getIntrinsicID() == Intrinsic::fshl;
+          out << "  { uint64_t s_ = " << sh << "; uint64_t a_ = (uint64_t)" << arg(0) << ", b_ = (uint64_t)" << arg(1) << "; "
+              << name(&ci) << " = " << maskexpr(ci.getType(), std::string("(") + ct + ")(s_ == 0 ? " + (left ? "a_" : "b_") + " : " +
+                 (left ? ("((a_ << s_) | (b_ >> (" + std::to_string(b) + " - s_)))") : ("((b_ >> s_) | (a_ << (" + std::to_string(b) + " - s_)))")) + ")") << "; }\n";
+          return;
+        }
         case Intrinsic::bswap: { unsigned b = ibits(ci.getType()); out << "  " << lhs << "(" << ctype(ci.getType()) << ")ll2c_bswap((uint64_t)" << arg(0) << "," << b << ");\n"; return; }
         case Intrinsic::uadd_with_overflow: case Intrinsic::umul_with_overflow: case Intrinsic::usub_with_overflow: {
           unsigned b = ibits(ci.getArgOperand(0)->getType());
